@@ -16,6 +16,7 @@ from typing import Any
 
 from xdsl.builder import Builder
 from xdsl.dialects.builtin import (
+    FileLineColLoc,
     IndexType,
     IntAttr,
     StringAttr,
@@ -35,6 +36,11 @@ from simverif.kernel import Stream
 
 TYPES = (i32, i64, IndexType(), f32)
 ATTRS = (IntAttr(0), IntAttr(1), StringAttr("a"), UnitAttr(), StringAttr("b"))
+LOCS = (
+    UnknownLoc(),
+    FileLineColLoc(StringAttr("a.mlir"), IntAttr(1), IntAttr(2)),
+    FileLineColLoc(StringAttr("b.mlir"), IntAttr(7), IntAttr(1)),
+)
 KEYS = ("k0", "k1", "k2")
 OPCLS = (TestOp, TestPureOp, TestTermOp)
 
@@ -194,9 +200,10 @@ def _create_op(g: G) -> Act | None:
     props = {}
     if g.s.flag(1, 4):
         props["prop1"] = ATTRS[g.s.choice(len(ATTRS))]
+    loc = LOCS[g.s.weighted((2, 1, 1))]
     return Act(
         "Operation.create",
-        lambda: cls.create(operands=operands, result_types=rtypes, successors=succs, regions=regions, attributes=attrs, properties=props),
+        lambda: cls.create(operands=operands, result_types=rtypes, successors=succs, regions=regions, attributes=attrs, properties=props, location=loc),
         [*operands, *succs, *regions],
         f"{cls.__name__}.create(operands={g.ns(operands)}, results={len(rtypes)}, successors={g.ns(succs)}, regions={g.ns(regions)}, attrs={sorted(attrs)}, props={sorted(props)})",
     )
@@ -403,7 +410,7 @@ def _insert_arg(g: G) -> Act | None:
     if g.faulty:
         idx = (-1, n + 1, n + 2)[g.s.choice(3)]
     t = g.typ()
-    loc = UnknownLoc() if g.s.flag(1, 3) else None
+    loc = LOCS[g.s.choice(len(LOCS))] if g.s.flag(1, 2) else None
     return Act("Block.insert_arg", lambda: b.insert_arg(t, idx, loc), [b], f"{g.n(b)}.insert_arg(type, {idx})")
 
 
@@ -1432,13 +1439,17 @@ def build_initial(u: Universe, s: Stream) -> None:
         operands = [pool[s.choice(len(pool))] for _ in range(k)]
         rtypes = [TYPES[s.choice(len(TYPES))] for _ in range(s.weighted((2, 4, 2)))]
         attrs = {KEYS[s.choice(len(KEYS))]: ATTRS[s.choice(len(ATTRS))]} if s.flag(1, 3) else {}
-        op = OPCLS[s.weighted((3, 2, 1))].create(operands=operands, result_types=rtypes, regions=regions, attributes=attrs)
+        op = OPCLS[s.weighted((3, 2, 1))].create(
+            operands=operands, result_types=rtypes, regions=regions, attributes=attrs, location=LOCS[s.weighted((2, 1, 1))]
+        )
         pool.extend(op.results)
         return op
 
     def mk_block(depth: int) -> Block:
         n = s.weighted((1, 3, 3, 2, 1)) if budget[0] > 0 else 0
-        b = Block(arg_types=[TYPES[s.choice(len(TYPES))] for _ in range(s.weighted((3, 2, 1)))])
+        b = Block()
+        for i in range(s.weighted((3, 2, 1))):
+            b.insert_arg(TYPES[s.choice(len(TYPES))], i, LOCS[s.weighted((2, 1, 1))])
         pool.extend(b.args)
         for _ in range(n):
             b.add_op(mk_op(depth))
